@@ -1295,6 +1295,263 @@ func (p *Program) loopEarlyExitsOnly(l *Loop, okExit func(*ssa.Return) bool) (bo
 	return true, ""
 }
 
+// loopEarlyExitsFail: every way of leaving loop l other than through its head ends in a return whose
+// error result is certainly non-nil (or in a panic). Unlike loopEarlyExitsOnly this is decided per
+// path: `break` + `return result` is the same as `return err` inside the loop, although the
+// return instruction is then shared with the regular end of the loop. Each early-exit edge is followed
+// along simple paths; Phis of blocks on the path take the value of the edge the path came in through,
+// branches whose condition is decided by those values or by the facts collected on the path are not
+// followed (`if result != nil { return result }` after the loop), and the returned error is judged
+// with the facts of the path. A path that revisits a block (another loop after the exit) or reaches a
+// block from which l can be entered again (l is nested in another loop: values the facts and Phis
+// speak about could be re-evaluated there) is judged the coarse way from that point on: all returns
+// reachable from there must fail unconditionally.
+func (p *Program) loopEarlyExitsFail(l *Loop) (bool, string) {
+	type pedge struct{ from, to *ssa.BasicBlock }
+	budget := 4000
+	bad := ""
+	reachesHead := map[*ssa.BasicBlock]bool{}
+	for work := []*ssa.BasicBlock{l.Head}; len(work) > 0; {
+		b := work[len(work)-1]
+		work = work[:len(work)-1]
+		if reachesHead[b] {
+			continue
+		}
+		reachesHead[b] = true
+		work = append(work, b.Preds...)
+	}
+	coarse := func(b *ssa.BasicBlock) bool {
+		for _, in := range reachableFromEdge(b, nil) {
+			if ret, ok := in.(*ssa.Return); ok && p.mayReturnNilErr(ret) {
+				bad = p.IPos(ret)
+				return false
+			}
+		}
+		return true
+	}
+	// value of v for an execution that followed path (most recent edge last)
+	var resolve func(v ssa.Value, at ssa.Instruction, path []pedge, exact bool, depth int) (vals []ssa.Value, exacts []bool)
+	resolve = func(v ssa.Value, at ssa.Instruction, path []pedge, exact bool, depth int) ([]ssa.Value, []bool) {
+		if depth > 8 {
+			return []ssa.Value{v}, []bool{false}
+		}
+		switch x := v.(type) {
+		case *ssa.Phi:
+			for i := len(path) - 1; i >= 0; i-- {
+				if path[i].to != x.Block() {
+					continue
+				}
+				idx := -1
+				for j, pr := range x.Block().Preds {
+					if pr == path[i].from {
+						if idx >= 0 {
+							idx = -2
+							break
+						}
+						idx = j
+					}
+				}
+				if idx >= 0 && idx < len(x.Edges) {
+					return resolve(x.Edges[idx], at, path[:i], exact, depth+1)
+				}
+				break
+			}
+			// merge that the path does not decide: the facts of the path may speak about the merge
+			// itself (`if err != nil { return err }` after a merged helper body), but not about its
+			// operands — those may stem from earlier iterations, while facts describe the latest
+			// evaluation
+			if exact {
+				return []ssa.Value{x}, []bool{true}
+			}
+			var vals []ssa.Value
+			var exs []bool
+			for _, e := range x.Edges {
+				vs, es := resolve(e, at, nil, false, depth+1)
+				vals = append(vals, vs...)
+				for range es {
+					exs = append(exs, false)
+				}
+			}
+			return vals, exs
+		case *ssa.UnOp:
+			if x.Op != token.MUL {
+				break
+			}
+			a, ok := x.X.(*ssa.Alloc)
+			if !ok {
+				break
+			}
+			sts, known := p.storesReaching(a, x)
+			zero := p.mayHoldZero(a, x)
+			if ai := p.allocInfo(a); ai.unknown || len(ai.stores) == 0 || !(known || zero) {
+				break
+			}
+			var vals []ssa.Value
+			var exs []bool
+			for _, st := range sts {
+				// a store made on the path itself stores the value as the path sees it
+				onPath := -1
+				for i := len(path) - 1; i >= 0; i-- {
+					if path[i].to == st.Block() {
+						onPath = i
+						break
+					}
+				}
+				if onPath >= 0 {
+					vs, es := resolve(st.Val, st, path[:onPath+1], exact, depth+1)
+					vals, exs = append(vals, vs...), append(exs, es...)
+				} else {
+					vs, es := resolve(st.Val, st, nil, false, depth+1)
+					vals = append(vals, vs...)
+					for range es {
+						exs = append(exs, false)
+					}
+				}
+			}
+			if zero {
+				vals, exs = append(vals, zeroConst(x.Type())), append(exs, true)
+			}
+			return vals, exs
+		}
+		return []ssa.Value{v}, []bool{exact}
+	}
+	nilness := func(v ssa.Value, at ssa.Instruction, path []pedge, facts []Fact) tri {
+		vals, exs := resolve(v, at, path, true, 0)
+		res := unknownTri
+		n := 0
+		var classify func(x ssa.Value, exact bool, depth int) bool
+		classify = func(x ssa.Value, exact bool, depth int) bool {
+			var fs []Fact
+			if exact {
+				fs = facts
+			}
+			t := p.errorValueNilness(x, fs)
+			if t == unknownTri && definitelyNonNil(x) {
+				t = noTri
+			}
+			if t == unknownTri && depth < 4 {
+				if ph, isPhi := x.(*ssa.Phi); isPhi && len(ph.Edges) > 0 {
+					for _, e := range ph.Edges {
+						vs, _ := resolve(e, at, nil, false, 0)
+						for _, y := range vs {
+							if !classify(y, false, depth+1) {
+								return false
+							}
+						}
+					}
+					return true
+				}
+			}
+			if t == unknownTri || (n > 0 && t != res) {
+				return false
+			}
+			res = t
+			n++
+			return true
+		}
+		for i, x := range vals {
+			if !classify(x, exs[i], 0) {
+				return unknownTri
+			}
+		}
+		return res
+	}
+	var walk func(path []pedge, facts []Fact) bool
+	walk = func(path []pedge, facts []Fact) bool {
+		b := path[len(path)-1].to
+		budget--
+		if budget < 0 || l.Body[b] || reachesHead[b] {
+			return coarse(b)
+		}
+		for _, e := range path[:len(path)-1] {
+			if e.to == b {
+				return coarse(b)
+			}
+		}
+		if isPanicBlock(b) || len(b.Instrs) == 0 {
+			return true
+		}
+		switch last := b.Instrs[len(b.Instrs)-1].(type) {
+		case *ssa.Return:
+			idx := errResultIndex(b.Parent())
+			if idx < 0 || idx >= len(last.Results) {
+				bad = p.IPos(last)
+				return false
+			}
+			if nilness(last.Results[idx], last, path, facts) != noTri {
+				bad = p.IPos(last)
+				return false
+			}
+			return true
+		case *ssa.If:
+			f := p.mkFact(last.Cond, true)
+			val := unknownTri // value of f.Cond on this path
+			if x, trueMeansNonNil, isNilTest := errNilTest(f.Cond); isNilTest {
+				switch nilness(x, last, path, facts) {
+				case yesTri:
+					val = noTri
+					if !trueMeansNonNil {
+						val = yesTri
+					}
+				case noTri:
+					val = yesTri
+					if !trueMeansNonNil {
+						val = noTri
+					}
+				}
+			} else {
+				vals, exs := resolve(f.Cond, last, path, true, 0)
+				if len(vals) == 1 {
+					if bv, isConst := constBool(vals[0]); isConst {
+						val = noTri
+						if bv {
+							val = yesTri
+						}
+					} else if exs[0] {
+						val = p.boolFromFacts(facts, vals[0])
+					}
+				}
+			}
+			for i, s := range b.Succs {
+				if val != unknownTri && b.Succs[0] != b.Succs[1] {
+					if taken := (val == yesTri) == f.Pol; taken != (i == 0) {
+						continue
+					}
+				}
+				if p.edgeContradicts(b, s, facts) {
+					continue
+				}
+				nf := append(append([]Fact{}, facts...), p.FactsOnEdge(b, s)...)
+				if !walk(append(append([]pedge{}, path...), pedge{b, s}), nf) {
+					return false
+				}
+			}
+			return true
+		}
+		for _, s := range b.Succs {
+			nf := append(append([]Fact{}, facts...), p.FactsOnEdge(b, s)...)
+			if !walk(append(append([]pedge{}, path...), pedge{b, s}), nf) {
+				return false
+			}
+		}
+		return true
+	}
+	for _, b := range l.Head.Parent().Blocks {
+		if !l.Body[b] || b == l.Head {
+			continue
+		}
+		for _, s := range b.Succs {
+			if l.Body[s] {
+				continue
+			}
+			if !walk([]pedge{{b, s}}, p.FactsOnEdge(b, s)) {
+				return false, bad
+			}
+		}
+	}
+	return true, ""
+}
+
 // dominatesAllTails: block b is executed on every iteration of loop l.
 func dominatesAllTails(b *ssa.BasicBlock, l *Loop) bool {
 	if !l.Body[b] {
